@@ -118,7 +118,7 @@ CLAIMED["C15"] = dict(cat="model_checking", ref="DESIGN.md 6 C15", note=POL_NOTE
         "SyncExact (owned state = Derived after a fault-free synchronisation), Idempotent, ForeignUntouched and NoDanglingBatch (the kernel model refuses and records any submission that references a missing chain or set). "
         "PolicyManager.tla gives every pass and handler as a transition of the kernel state (what is submitted, in which order, what the kernel refuses): every recorded step of the real code must equal the model's step, "
         "and MC_PolicyManager checks over all histories of <= 9 actions of a small universe that foreign state never changes and that every synchronisation ends exact or in one of the two known shapes "
-        "(and that the three-phase synchronisation proposed as their repair always ends exact). MC_NetPol checks exhaustively over a small universe that Derived is well formed (references only what it derives).",
+        "(and that the three-phase synchronisation proposed as their repair always ends exact); the shortest model histories into each known shape (TLC counterexamples, spec/polschedules) are replayed on the real code on every run. MC_NetPol checks exhaustively over a small universe that Derived is well formed (references only what it derives).",
    tech="TLA+ behaviour spec of the manager (one transition per pass/handler) model-checked by TLC + step-by-step conformance and property evaluation by TLC on traces of real-code executions over a strict kernel model")
 CLAIMED["C16"] = dict(cat="model_checking", ref="DESIGN.md 6 C16", note=POL_NOTE,
    text="NetPol.tla states the Kubernetes NetworkPolicy semantics of a new connection (K8sAllows) and the verdict of a filter table (Walk: first match, jumps and returns, ipset membership with nomatch). "
